@@ -42,7 +42,11 @@ pub enum Op {
     Audio { msid: u32, ts: u32, data: Vec<u8> },
     Video { msid: u32, ts: u32, data: Vec<u8> },
     OnMetaData { msid: u32 },
-    Ping { ts: u32 },
+    /// ping request; `msid`: the message stream id its chunk header names (0 is usual)
+    Ping { ts: u32, msid: u32 },
+    /// Abort / SetPeerBandwidth / user-control events other than pings, carrying number `n` (none
+    /// of them is part of the workflow, whatever number they carry)
+    Control { kind: u8, n: u32, msid: u32 },
     PingResponse { ts: u32 },
     Ack { n: u32 },
     SetChunkSize { n: u32 },
@@ -148,7 +152,7 @@ pub enum Verdict {
 pub struct Model {
     pub st: St,
     pub outstanding: BTreeMap<u32, Purpose>,
-    pub used_txids: Vec<u32>,
+    pub used_txids: std::collections::BTreeSet<u32>,
     pub answered_txids: Vec<u32>,
     pub active_stream: Option<u32>,
     pub corners: Vec<&'static str>,
@@ -156,7 +160,7 @@ pub struct Model {
 
 impl Model {
     pub fn new() -> Model {
-        Model { st: St::Disconnected, outstanding: BTreeMap::new(), used_txids: vec![], answered_txids: vec![], active_stream: None, corners: vec![] }
+        Model { st: St::Disconnected, outstanding: BTreeMap::new(), used_txids: std::collections::BTreeSet::new(), answered_txids: vec![], active_stream: None, corners: vec![] }
     }
 
     pub fn state_class(&self) -> String {
@@ -176,7 +180,7 @@ impl Model {
                     if self.used_txids.contains(&id) {
                         return Err(format!("transaction id {} reused", id));
                     }
-                    self.used_txids.push(id);
+                    self.used_txids.insert(id);
                     return Ok(id);
                 }
             }
@@ -355,7 +359,8 @@ impl Model {
                     want_events.push(Ev::Metadata);
                 }
             }
-            Op::Ping { ts } => want_tags.push(Tag::PingResponse { ts: *ts }),
+            Op::Ping { ts, .. } => want_tags.push(Tag::PingResponse { ts: *ts }),
+            Op::Control { .. } => {}
             Op::PingResponse { ts } => want_events.push(Ev::PingResponse { ts: *ts }),
             Op::Ack { n } => want_events.push(Ev::AckReceived { n: *n }),
             Op::SetChunkSize { .. } | Op::StreamBegin { .. } => {}
